@@ -1,6 +1,6 @@
 SPECIFICATION Spec
 CONSTANTS MaxRecs = 3 MaxCalls = 4 MaxRuns = 3 CommitBeforeReturn = TRUE TolerantVersionRead = TRUE
-          AtomicUpgrade = TRUE Legacy = TRUE MaxBatches = 0 GateResetOnError = TRUE ReloadWait = 0
+          AtomicUpgrade = TRUE Legacy = TRUE MaxBatches = 0 GateResetOnError = TRUE ReloadWait = 0 MaxDepth = 1 EnterKeepsPending = TRUE ParentFirst = TRUE
 INVARIANT TypeOK
 INVARIANT AckedDurable
 INVARIANT NoPartialRecord
